@@ -64,6 +64,16 @@ pub const MENU: &[GroupDef] = &[
     GroupDef { body: "?:é+", yes: &["é", "éé"], no: &["e", ""] },
     GroupDef { body: "?:[a-zß-ÿ]+", yes: &["straße", "é", "ks"], no: &["", "٤"] },
     GroupDef { body: "?:σ|ж", yes: &["σ", "ж"], no: &["s", ""] },
+    // Unicode-aware classes (tables in Model/Regex.lean, validated here in mode rx)
+    GroupDef { body: "?:\\w+", yes: &["é", "Ж9", "日本", "٤٢", "a_b", "ǅ", "e\u{301}"], no: &["", "-", "🤘"] },
+    GroupDef { body: "?:\\d+", yes: &["٤٢", "42", "４２", "४२"], no: &["", "a", "٤a"] },
+    GroupDef { body: "?:\\S+", yes: &["é", "Жук", "🤘"], no: &["", "é\u{a0}x", "é x", "\u{2003}"] },
+    GroupDef { body: "?:\\s", yes: &[" ", "\u{a0}", "\u{2003}", "\t"], no: &["a", "", "_"] },
+    GroupDef { body: "?:\\W", yes: &["-", "🤘", " ", "€"], no: &["é", "٤", "a", "_"] },
+    GroupDef { body: "?:\\D+", yes: &["é", "ab", "-"], no: &["٤", "4", "४"] },
+    GroupDef { body: "?:\\pL+", yes: &["é", "Жук", "日本", "ſ"], no: &["٤", "", "_", "e\u{301}"] },
+    GroupDef { body: "?:[[:alpha:]]+", yes: &["ab", "Z"], no: &["é", "", "1"] },
+    GroupDef { body: "?:[[:digit:]x]{2}", yes: &["4x", "00"], no: &["٤٢", "ab"] },
 ];
 
 /// Groups with an unescaped parenthesis inside a character class (DESIGN §6-O1): valid regexes that the
